@@ -161,9 +161,6 @@ func verifC07OrderBody() {
 		}
 	}
 
-	// known finding S7: the response is assembled by ranging over the map keyed by epoch
-	verifKnownFinding("C07-S7-response-map-order", nonEmpty >= 2)
-
 	raw := json.RawMessage(`[]`)
 	req := &jsonrpc2.Request{Method: "getSignaturesForAddress", ID: jsonrpc2.ID{Num: 77}, Params: &raw}
 	jerr, err := m.handleGetSignaturesForAddress(context.Background(), &requestContext{}, req)
@@ -185,10 +182,34 @@ func verifC07OrderBody() {
 		resp, ok := verifC07.replies[0].([]map[string]any)
 		verifAssert(ok, "C07.order: reply is not a list of objects")
 		verifAssert(len(resp) == len(want), "C07.order: reply has the wrong number of entries")
-		for i, f := range want {
+		sigAt := make([]string, len(resp))
+		for i := range resp {
 			verifAssert(resp[i] != nil, "C07.order: reply entry is null")
-			got, _ := resp[i]["signature"].(string)
-			verifAssert(got == f.sig.String(), "C07.order: reply does not list the signatures newest epoch first / newest transaction first")
+			sigAt[i], _ = resp[i]["signature"].(string)
+		}
+		// order-insensitive part: the reply consists of one contiguous block per epoch, each block
+		// complete and newest transaction first
+		for _, e := range verifC07.wantReaders {
+			l := perEpoch[e]
+			if len(l) == 0 {
+				continue
+			}
+			p := -1
+			for i := range sigAt {
+				if sigAt[i] == l[0].sig.String() {
+					p = i
+				}
+			}
+			verifAssert(p >= 0 && p+len(l) <= len(sigAt), "C07.order: an epoch's transactions are missing from the reply")
+			for j, f := range l {
+				verifAssert(sigAt[p+j] == f.sig.String(), "C07.order: transactions of one epoch are not contiguous / newest first in the reply")
+			}
+		}
+		// known finding S7: the response is assembled by ranging over the map keyed by epoch, so
+		// the order of the epoch blocks is random when the result spans several epochs
+		verifKnownFinding("C07-S7-response-map-order", nonEmpty >= 2)
+		for i, f := range want {
+			verifAssert(sigAt[i] == f.sig.String(), "C07.order: reply does not list the signatures newest epoch first / newest transaction first")
 		}
 	}
 	verifReach("end")
@@ -228,21 +249,9 @@ func VerifC07Readers() {
 	start := verifU64("startSlot")
 	end := verifU64("endSlot")
 	const L = 432000
-	if verifParam("wild", 0) == 0 {
-		// sane request: start <= end, both inside epochs 0..5
-		verifAssume(start <= end && end < 6*L)
-	} else {
-		// any 64-bit range: only crash-freedom is claimed; ranges that are reversed or longer than
-		// 6 epochs belong to known finding C07-slotrange-alloc
-		sane := verifIteU64(start <= end, verifIteU64(end-start < 6*L, 1, 0), 0)
-		verifKnownFinding("C07-slotrange-alloc", sane == 0)
-		verifAllocLimit(1 << 20)
-	}
+	// sane request: start <= end, both inside epochs 0..5 (reversed / huge ranges: C07.slotrange)
+	verifAssume(start <= end && end < 6*L)
 	multi, epochNums := m.getGsfaReadersInEpochDescendingOrderForSlotRange(context.Background(), start, end)
-	if verifParam("wild", 0) == 1 {
-		verifReach("end")
-		return
-	}
 	verifAssert(multi != nil, "C07.readers: no multi-epoch reader returned")
 	for i := 0; i+1 < len(epochNums); i++ {
 		verifAssert(epochNums[i] > epochNums[i+1], "C07.readers: epochs not strictly descending")
@@ -263,5 +272,37 @@ func VerifC07Readers() {
 		_, ok := m.epochs[x]
 		verifAssert(ok, "C07.readers: listed epoch is not loaded")
 	}
+	verifReach("end")
+}
+
+// ---------------------------------------------------------------------------
+// C07.slotrange — crash-freedom of getGsfaReadersInEpochDescendingOrderForSlotRange over slot
+// ranges a client can send (StreamTransactions passes start_slot / end_slot unchecked): short
+// forward ranges, ranges reversed by more than one epoch, and forward ranges of >= 2^40 slots.
+func VerifC07SlotRange() {
+	verifMapOrderNondet(true)
+	m := NewMultiEpoch(&Options{})
+	nums := []uint64{3, 0, 4, 1}
+	K := 1 + verifChoice("epochs", verifParam("max_epochs", 1))
+	for k := 0; k < K; k++ {
+		ep := &Epoch{epoch: nums[k]}
+		if verifChoice("has_gsfa", 2) == 1 {
+			ep.gsfaReader = &gsfa.GsfaReader{}
+		}
+		m.epochs[nums[k]] = ep
+	}
+	start := verifU64("startSlot")
+	end := verifU64("endSlot")
+	const L = 432000
+	sane := verifIteU64(start <= end, verifIteU64(end-start < 6*L, 1, 0), 0)
+	rev := verifIteU64(start > end, verifIteU64(start-end > L, 1, 0), 0)
+	huge := verifIteU64(start <= end, verifIteU64(end-start >= 1<<40, 1, 0), 0)
+	verifAssume(sane+rev+huge != 0)
+	// known finding: the capacity endEpoch-startEpoch+1 of the epoch list is computed from the
+	// request alone (wraps for reversed ranges, unbounded for long ones)
+	verifKnownFinding("C07-slotrange-alloc", sane == 0)
+	verifAllocLimit(1 << 20)
+	_, epochNums := m.getGsfaReadersInEpochDescendingOrderForSlotRange(context.Background(), start, end)
+	verifAssert(len(epochNums) <= K, "C07.slotrange: more epochs listed than loaded")
 	verifReach("end")
 }
